@@ -74,6 +74,11 @@ def gen(rng, i, tier):
     return {"obj": G.jraw(obj), "calls": [gen_call(rng, labs) for _ in range(rng.choice([1, 1, 1, 2, 3]))]}
 
 
+def twin_ok(case):
+    # also run under the second label decoding (common.twin_labels); Matrix kinds index by int
+    return C.no_matrix(case)
+
+
 def run_impl(case):
     import qubovert as qv
     H = qv.PCSO({k: C.num(v) for k, v in G.unjraw(case["obj"])})
